@@ -148,6 +148,9 @@ type Cluster struct {
 	// SupportedFor, when set, gives the SUPPORTED multimap of one node (nodes of different
 	// versions or configurations advertise different things).
 	SupportedFor func(h *Host) map[string][]string
+	// OptionsReply, when set and returning a response, answers an OPTIONS request in place
+	// of SUPPORTED (a node that sheds load answers probes with ERROR frames)
+	OptionsReply func(sc *SConn, rec *ReqRec) *cqlspec.Response
 	// CompressEvents makes pushed events compressed on connections that negotiated compression.
 	CompressEvents bool
 	// SystemFateFn, when set, decides the fate of each system reply.
@@ -357,6 +360,12 @@ func (cl *Cluster) handle(sc *SConn, frame []byte) {
 	cl.wireChecks(sc, rq)
 	switch rq.Header.Opcode {
 	case cqlspec.OpOptions:
+		if cl.OptionsReply != nil {
+			if resp := cl.OptionsReply(sc, rec); resp != nil {
+				cl.Send(sc, rec, resp, cl.systemFate(sc, rec), "OPTIONS-REFUSED")
+				return
+			}
+		}
 		sup := cl.Supported
 		if cl.SupportedFor != nil {
 			sup = cl.SupportedFor(sc.Host)
